@@ -606,11 +606,250 @@ def rule_T(ctx):
     ctx.extra['C14.T cases'] = ncases[0]
 
 
+_NUM_CACHE = {}
+
+
+class _Capture:
+    """buffers the obligations of a symbolic rule so that its verdict can be weighed against the shape-independent one"""
+
+    def __init__(self, ctx):
+        self._ctx = ctx
+        self.buf = []
+
+    def __getattr__(self, k):
+        return getattr(self._ctx, k)
+
+    def ok(self, rule, func, desc, node=None, detail=None):
+        self.buf.append(('ok', (rule, func, desc), {'node': node, 'detail': detail}))
+
+    def violation(self, rule, func, desc, witness, node=None, key=None):
+        self.buf.append(('violation', (rule, func, desc, witness), {'node': node, 'key': key}))
+
+    def check(self, cond, rule, func, desc, witness=None, node=None, key=None):
+        if cond:
+            return self.ok(rule, func, desc, node)
+        return self.violation(rule, func, desc, witness if witness is not None else desc, node, key)
+
+    def recognise(self, cond, rule, func, desc, node=None, witness=None, key=None):
+        if cond:
+            return self.ok(rule, func, desc, node)
+        from ..loader import AnalysisError
+        raise AnalysisError('shape', '%s: construct not recognised: %s' % (getattr(func, 'qual', func), desc))
+
+
+def _symbolic(rule_id, clauses, sym):
+    """A symbolic rule proves a clause for ALL inputs when the formulas are written in a shape its reader follows.  When it cannot
+    establish the closed form (helpers, generators, computed attribute names: the reader yields terms it does not understand) it does
+    not claim a violation on that ground alone: the clause is decided by C14.N, which interprets the code whatever its shape.  A
+    symbolic mismatch is reported only together with a concrete counter-example of C14.N."""
+    def rule(ctx):
+        from ..loader import AnalysisError
+        res = _numeric(ctx)
+        cap = _Capture(ctx)
+        err = None
+        try:
+            sym(cap)
+        except AnalysisError as e:
+            if e.kind not in ('shape', 'anchor'):
+                raise
+            err = e
+        bad = [b for b in cap.buf if b[0] == 'violation']
+        numeric_ok = all(res[c][1] is None for c in clauses)
+        for kind, a, kw in cap.buf:
+            if kind == 'ok':
+                ctx.ok(*a, **kw)
+            elif not numeric_ok:
+                ctx.violation(*a, **kw)
+        if (bad or err is not None) and numeric_ok:
+            f0 = res[clauses[0]][0]
+            why = err.msg if err is not None else '; '.join(sorted({b[1][2] for b in bad}))[:300]
+            ctx.note(rule_id, 'the symbolic reading did not establish the closed form (%s); the clause is decided by C14.N' % why)
+            ctx.ok(rule_id, f0, 'symbolic reading not available for the present shape of the code: clause decided by interpretation (C14.N) on %d cases'
+                   % sum(res[c][2] for c in clauses), node=f0.node)
+        elif err is not None:
+            raise err
+    rule.__doc__ = sym.__doc__
+    return rule
+
+
+
+def _numeric(ctx):
+    """every clause of the property decided by interpreting the repository's conversion code (tlint.orders; nothing is imported or
+    run by CPython) on a lattice of positions and bases, against closed forms computed here: clause -> (function, counter-example or
+    None, number of cases).  The lattice covers the eight octants, the equator, the Greenwich and the anti-meridian, |lat| up to 89.9,
+    heights from -1000 m to 10000 m; bases at the same kinds of places; Lambert-93 inside its domain."""
+    import math
+    from .. import absint, orders
+    from ..loader import shape_error
+    cache = _NUM_CACHE.setdefault(id(ctx), {})
+    if cache:
+        return cache
+    fn = absint.funcs(ctx, OC, {})
+
+    def _exit(*a):
+        raise orders.Raised('SystemExit', 'exit()')
+    fn['exit'] = _exit
+    G = absint.classref(ctx, OC + '.GeoCoords', fn)
+    X = absint.classref(ctx, OC + '.ECEFCoords', fn)
+    E = absint.classref(ctx, OC + '.ENUCoords', fn)
+    A, F = 6378137.0, 1.0 / 298.257223563
+    E2 = F * (2.0 - F)
+    RAD = math.pi / 180.0
+
+    def ecef(lon, lat, h):
+        n_ = A / math.sqrt(1.0 - E2 * math.sin(lat * RAD) ** 2)
+        return ((n_ + h) * math.cos(lat * RAD) * math.cos(lon * RAD), (n_ + h) * math.cos(lat * RAD) * math.sin(lon * RAD), ((1.0 - E2) * n_ + h) * math.sin(lat * RAD))
+
+    def enu(p, b):
+        (x, y, z), (bx, by, bz) = ecef(*p), ecef(*b)
+        dx, dy, dz = x - bx, y - by, z - bz
+        sl, cl, sp, cp = math.sin(b[0] * RAD), math.cos(b[0] * RAD), math.sin(b[1] * RAD), math.cos(b[1] * RAD)
+        return (-dx * sl + dy * cl, -dx * cl * sp - dy * sl * sp + dz * cp, dx * cl * cp + dy * sl * cp + dz * sp)
+
+    def fields(o, names):
+        if not isinstance(o, orders.Obj) or not all(k in o.fields and isinstance(o.fields[k], (int, float)) and not isinstance(o.fields[k], bool) for k in names):
+            return None
+        return tuple(float(o.fields[k]) for k in names)
+
+    def dlon(a, b):
+        d = abs(a - b) % 360.0
+        return min(d, 360.0 - d)
+
+    def run(f, thunk):
+        try:
+            return True, thunk()
+        except orders.Unsupported as ex:
+            raise shape_error('%s not interpretable: %s' % (f.qual, ex), f.loc())
+        except (ZeroDivisionError, ValueError, TypeError, AttributeError, IndexError, KeyError, OverflowError, orders.Raised, RecursionError) as ex:
+            return False, '%s: %s' % (type(ex).__name__, str(ex)[:160])
+    LONS = (-180.0, -179.9999, -120.5, -90.0, -1e-9, 0.0, 2.3522, 45.0, 90.0, 135.25, 179.9999, 180.0)
+    LATS = (-89.9, -67.25, -45.0, -1e-7, 0.0, 1e-7, 23.5, 48.8566, 80.0, 89.9)
+    HS = (-1000.0, 0.0, 35.5, 10000.0)
+    PTS = [(lo, la, h) for lo in LONS for la in LATS for h in HS]
+    f_e = ctx.prog.func(OC + '.GeoCoords.toECEFCoords')
+    f_i = ctx.prog.func(OC + '.ECEFCoords.toGeoCoords')
+    f_r = ctx.prog.func(OC + '.ECEFCoords.toENUCoords')
+    f_b = ctx.prog.func(OC + '.ENUCoords.toECEFCoords')
+    out = {}
+    # E: geographic -> ECEF is the closed form; I: and back (1e-9 degree, 1 mm)
+    bad_e = bad_i = None
+    n_e = n_i = 0
+    for p in PTS:
+        n_e += 1
+        ok, r = run(f_e, lambda: G(*p).call('toECEFCoords'))
+        got = fields(r, ('X', 'Y', 'Z')) if ok else None
+        want = ecef(*p)
+        if got is None or any(abs(g - w) > 1e-6 + 1e-13 * abs(w) for g, w in zip(got, want)):
+            bad_e = bad_e or {'geographic (lon, lat, h)': list(p), 'returned (X, Y, Z)': list(got) if got else (r if not ok else repr(r)), 'closed form': list(want)}
+            continue
+        n_i += 1
+        ok, r2 = run(f_i, lambda: X(*got).call('toGeoCoords'))
+        back = fields(r2, ('lon', 'lat', 'hgt')) if ok else None
+        if back is None or dlon(back[0], p[0]) > 1e-9 or abs(back[1] - p[1]) > 1e-9 or abs(back[2] - p[2]) > 1e-3:
+            bad_i = bad_i or {'geographic (lon, lat, h)': list(p), 'ECEF': list(got), 'converted back (lon, lat, h)': list(back) if back else (r2 if not ok else repr(r2)),
+                              'tolerance': '1e-9 degree, 1 mm'}
+    out['E'] = (f_e, bad_e, n_e)
+    out['I'] = (f_i, bad_i, n_i)
+    # R: local frames - the base maps to (0, 0, 0); points map to the rotation of the ECEF difference; and back; base given as GeoCoords or ECEFCoords
+    BASES = [(2.3522, 48.8566, 35.0), (-179.9999, -45.0, 0.0), (0.0, 0.0, 0.0), (135.25, 89.9, 10000.0), (-90.0, -89.9, -1000.0), (180.0, 23.5, 150.0)]
+    OFFS = [(0.0, 0.0, 0.0), (0.001, 0.0005, 12.0), (-0.3, 0.2, -40.0), (0.9, -0.45, 800.0), (0.0, 0.0, 2500.0)]
+    bad_r = bad_b = None
+    n_r = n_b = 0
+    for b in BASES:
+        for (dlo, dla, dh) in OFFS:
+            lat = max(-89.9, min(89.9, b[1] + dla))
+            lon = b[0] + dlo / max(0.02, math.cos(lat * RAD)) if abs(b[1]) < 89 else b[0] + dlo * 20
+            lon = (lon + 180.0) % 360.0 - 180.0
+            p = (lon, lat, b[2] + dh)
+            for base_kind in ('GeoCoords', 'ECEFCoords'):
+                n_r += 1
+                mkbase = (lambda: G(*b)) if base_kind == 'GeoCoords' else (lambda: X(*ecef(*b)))
+                ok, r = run(f_r, lambda: G(*p).call('toENUCoords', mkbase()))
+                got = fields(r, ('E', 'N', 'U')) if ok else None
+                want = enu(p, b)
+                tol = 1e-4 + 1e-9 * max(abs(w) for w in want)
+                if (dlo, dla, dh) == (0.0, 0.0, 0.0):
+                    want, tol = (0.0, 0.0, 0.0), 1e-8
+                if got is None or any(abs(g - w) > tol for g, w in zip(got, want)):
+                    bad_r = bad_r or {'base (lon, lat, h)': list(b), 'base given as': base_kind, 'point (lon, lat, h)': list(p),
+                                      'returned (E, N, U)': list(got) if got else (r if not ok else repr(r)), 'expected': list(want)}
+                    continue
+                n_b += 1
+                ok, r2 = run(f_b, lambda: E(*got).call('toGeoCoords', mkbase()))
+                back = fields(r2, ('lon', 'lat', 'hgt')) if ok else None
+                if back is None or dlon(back[0], p[0]) * max(0.0, math.cos(p[1] * RAD)) > 1e-9 or abs(back[1] - p[1]) > 1e-9 or abs(back[2] - p[2]) > 1e-3:
+                    bad_b = bad_b or {'base (lon, lat, h)': list(b), 'base given as': base_kind, 'point (lon, lat, h)': list(p), 'local (E, N, U)': list(got),
+                                      'converted back (lon, lat, h)': list(back) if back else (r2 if not ok else repr(r2)), 'tolerance': '1e-9 degree (of arc), 1 mm'}
+    # ENU relative to one base -> ENU relative to another
+    f_rr = ctx.prog.func(OC + '.ENUCoords.toENUCoords')
+    for b1, b2 in ((BASES[0], (2.36, 48.86, 40.0)), (BASES[2], (0.01, -0.01, 5.0))):
+        for (dlo, dla, dh) in OFFS[1:4]:
+            p = (b1[0] + dlo * 0.1, b1[1] + dla * 0.1, b1[2] + dh)
+            n_r += 1
+            e1 = enu(p, b1)
+            ok, r = run(f_rr, lambda: E(*e1).call('toENUCoords', G(*b1), G(*b2)))
+            got = fields(r, ('E', 'N', 'U')) if ok else None
+            want = enu(p, b2)
+            if got is None or any(abs(g - w) > 1e-4 + 1e-9 * abs(w) for g, w in zip(got, want)):
+                bad_r = bad_r or {'first base': list(b1), 'second base': list(b2), 'local coordinates in the first frame': list(e1),
+                                  'returned (E, N, U)': list(got) if got else (r if not ok else repr(r)), 'expected in the second frame': list(want)}
+    out['R'] = (f_r, bad_r, n_r)
+    out['B'] = (f_b, bad_b, n_b)
+    # L: Lambert-93 (IGN constants), forward closed form and back
+    f_l = ctx.prog.func(OC + '._projToLambert93')
+    LE, LN, LC, LXS, LYS, L0 = 0.08181919106, 0.7256077650532670, 11754255.426096, 700000.0, 12655612.049876, 3.0 * RAD
+
+    def lambert(lon, lat):
+        phi = lat * RAD
+        liso = math.atanh(math.sin(phi)) - LE * math.atanh(LE * math.sin(phi))
+        r_ = LC * math.exp(-LN * liso)
+        return LXS + r_ * math.sin(LN * (lon * RAD - L0)), LYS - r_ * math.cos(LN * (lon * RAD - L0))
+    bad_l = None
+    n_l = 0
+    for lon in (-5.0, -1.5, 0.0, 2.3522, 3.0, 7.5, 9.5):
+        for lat in (41.0, 43.5, 46.5, 48.8566, 51.0):
+            for z in (0.0, 150.5):
+                n_l += 1
+                ok, r = run(f_l, lambda: G(lon, lat, z).call('toENUCoords', 2154))
+                got = fields(r, ('E', 'N', 'U')) if ok else None
+                want = lambert(lon, lat) + (z,)
+                if got is None or any(abs(g - w) > 2e-3 for g, w in zip(got, want)):
+                    bad_l = bad_l or {'geographic (lon, lat, h)': [lon, lat, z], 'returned (X, Y, Z)': list(got) if got else (r if not ok else repr(r)),
+                                      'Lambert-93 closed form (IGN constants)': list(want)}
+                    continue
+                ok, r2 = run(f_l, lambda: E(*got).call('toGeoCoords', 2154))
+                back = fields(r2, ('lon', 'lat', 'hgt')) if ok else None
+                if back is None or abs(back[0] - lon) > 1e-9 or abs(back[1] - lat) > 1e-9 or abs(back[2] - z) > 1e-3:
+                    bad_l = bad_l or {'geographic (lon, lat, h)': [lon, lat, z], 'projected': list(got), 'converted back': list(back) if back else (r2 if not ok else repr(r2)),
+                                      'tolerance': '1e-9 degree, 1 mm'}
+    out['L'] = (f_l, bad_l, n_l)
+    cache.update(out)
+    return cache
+
+
+def rule_N(ctx):
+    """C14.N the conversions interpreted on a lattice of positions and bases against closed forms computed by the checker (shape-independent:
+    whatever way the formulas are written)"""
+    res = _numeric(ctx)
+    texts = {
+        'E': 'geographic -> ECEF equals the closed-form WGS84 expression (1e-6 m)',
+        'I': 'ECEF -> geographic returns the position geographic -> ECEF started from (1e-9 degree, 1 mm)',
+        'R': 'geographic -> local ENU is the rotation of the ECEF difference by the longitude and latitude of the base (base given as GeoCoords or ECEFCoords); the base itself maps to (0, 0, 0); ENU -> ENU between two bases likewise',
+        'B': 'local ENU -> geographic returns the position the local coordinates came from (1e-9 degree, 1 mm)',
+        'L': 'Lambert-93 forward equals the IGN closed form (2 mm) and the inverse returns the geographic position (1e-9 degree)',
+    }
+    for k, (f, bad, n) in sorted(res.items()):
+        ctx.check(bad is None, 'C14.N', f, '%s on %d interpreted cases' % (texts[k], n), witness=bad, node=f.node, key='numeric:' + k)
+    ctx.extra['C14.N cases'] = sum(n for _, _, n in res.values())
+
+
+
 RULES = [
-    ('C14.E', rule_E, 'quick'),
-    ('C14.I', rule_I, 'quick'),
-    ('C14.R', rule_R, 'quick'),
-    ('C14.L', rule_L, 'quick'),
+    ('C14.N', rule_N, 'quick'),
+    ('C14.E', _symbolic('C14.E', ('E',), rule_E), 'quick'),
+    ('C14.I', _symbolic('C14.I', ('I', 'E'), rule_I), 'quick'),
+    ('C14.R', _symbolic('C14.R', ('R', 'B'), rule_R), 'quick'),
+    ('C14.L', _symbolic('C14.L', ('L',), rule_L), 'quick'),
     ('C14.T', rule_T, 'quick'),
 ]
-MIN_OBLIGATIONS = 20
+MIN_OBLIGATIONS = 12
